@@ -3,6 +3,7 @@ import PhysisModel.Proofs.MdlFrame
 import PhysisModel.Proofs.MdlRuntimeSize
 import PhysisModel.Proofs.MdlHistory2
 import PhysisModel.Proofs.MdlRelayoutLemmas
+import PhysisModel.Proofs.MdlRelayoutWF
 import PhysisModel.Proofs.MdlFlags
 /-!
 # C07 — parse ∘ write ∘ edits ∘ parse reports the new geometry
@@ -206,7 +207,8 @@ theorem edit_then_parse (a : AbstractModel) (h : WF a = true) (hcan : Canonical 
     (v0 : View) (hv0 : view a = some v0) (es : List AEdit) (hne : es ≠ [])
     (hes : editsOk2 a es = true) (a' : AbstractModel) (ha' : applyEdits a es = some a')
     (ces : List Edit) (hces : cedits a es = some ces)
-    (h' : WF (relayout a') = true) (hcan' : Canonical a' = true) (hne' : usedNonempty a' = true)
+    (h' : WF a' = true) (hlen' : (encodeMdl (relayout a')).length < 4294967296)
+    (hcan' : Canonical a' = true) (hne' : usedNonempty a' = true)
     (v : View) (hv : view a' = some v) (mE : MDL)
     (hE : ces.foldlM Mdl.applyEdit (parsedOf a v0) = .ok mE) :
     ∃ buf m1, writeToBuffer mE = .ok buf ∧ fromExisting buf = .ok m1 ∧
@@ -225,6 +227,6 @@ theorem edit_then_parse (a : AbstractModel) (h : WF a = true) (hcan : Canonical 
       (by show v0.lods.length ≤ _; rw [parsedOf_lods_length a h v0 hv0]; exact Nat.le_refl _)
       (unusedEmpty_initial a h hcan)
   exact edit_then_parse_of_rep a' hsm (parsedOf a v0) mE ces (cedits_ne_nil es a ces hne hces)
-    (rep_rangesDisjoint h hrep0) hE hrep h' hcan' hne' v hv hun
+    (rep_rangesDisjoint h hrep0) hE hrep (wf_relayout a' h' hlen') hcan' hne' v hv hun
 
 end Physis.Mdl
